@@ -72,9 +72,9 @@ Init ==
   /\ rc = {} /\ sel = "none" /\ nom = "none"
   /\ pend = {} /\ nrounds = 0
   /\ phost = FALSE
-  /\ routes = [a \in Addr |-> IF sock = "mux" THEN "none" ELSE "us"]
+  /\ routes = [a \in Addr |-> IF sock \in {"mux", "tcpmux"} THEN "none" ELSE "us"]
   /\ hist = <<>>
-  /\ last = [kind |-> "init", delivered |-> TRUE]
+  /\ last = [kind |-> "init", delivered |-> TRUE, first |-> FALSE]
 
 \* every history entry carries the state it leads to, so that a replay can wait for the
 \* (asynchronous) effects of one step before it applies the next
@@ -92,6 +92,12 @@ NewRound(ps, cands, n) ==
   IF ds = {} THEN [pend |-> ps, n |-> n]
   ELSE [pend |-> ps \cup {[dst |-> d, rnd |-> n + 1, uc |-> FALSE] : d \in ds}, n |-> n + 1]
 
+\* ICE-TCP: connections accepted by the agent's own passive listener ("tcp") or by the process-wide shared
+\* single-port listener ("tcpmux": the FIRST frame of a new connection must be a Binding request whose USERNAME
+\* names a registered ufrag - it attaches the connection to that session (routes = "us") and is then handled like
+\* every later frame; anything else makes the listener drop the connection)
+IsTcp == sock \in {"tcp", "tcpmux"}
+
 \* sending to an address through the shared socket routes that address back to this session
 Sent(rt, ds) == [a \in Addr |-> IF a \in ds THEN "us" ELSE rt[a]]
 
@@ -104,15 +110,15 @@ Start ==
   /\ started' = TRUE
   \* ICE-TCP: the peer signals an active candidate (port 9); its real source address is only ever learnt
   \* from an inbound connection, and checks towards the placeholder fail at once
-  /\ rc' = (IF sock = "tcp" THEN rc ELSE rc \cup {"P"})
-  /\ phost' = (IF sock = "tcp" \/ "P" \in rc THEN phost ELSE TRUE)
+  /\ rc' = (IF IsTcp THEN rc ELSE rc \cup {"P"})
+  /\ phost' = (IF IsTcp \/ "P" \in rc THEN phost ELSE TRUE)
   /\ state' = "Checking"
-  /\ (LET r == IF sel = "none" /\ sock # "tcp" THEN NewRound(pend, rc', nrounds) ELSE [pend |-> pend, n |-> nrounds]
+  /\ (LET r == IF sel = "none" /\ ~IsTcp THEN NewRound(pend, rc', nrounds) ELSE [pend |-> pend, n |-> nrounds]
       IN pend' = r.pend /\ nrounds' = r.n)
   \* connectivity checks go out on the raw socket (IceGatherer::get_socket), not through the session handle:
   \* they do not route their destination back to this session
   /\ UNCHANGED routes
-  /\ last' = [kind |-> "start", delivered |-> TRUE]
+  /\ last' = [kind |-> "start", delivered |-> TRUE, first |-> FALSE]
   /\ UNCHANGED <<sel, nom, cfgv>>
   /\ Log([op |-> "start"])
 
@@ -127,16 +133,17 @@ Better(a, b) == a = "P" /\ b = "X" /\ phost
 
 \* ICE-TCP, request on an accepted inbound connection (complete_controlled_inbound_tcp_nomination):
 \* a controlled agent takes the first accepted request - with or without USE-CANDIDATE - as the nomination
-AcceptTcp(src) ==
+AcceptTcp(src, rt) ==
+  /\ routes' = rt
   /\ rc' = rc \cup {src}
   /\ (IF role = "controlled" /\ nom = "none"
       THEN sel' = src /\ state' = "Connected" /\ nom' = "true"
       ELSE UNCHANGED <<sel, state, nom>>)
-  /\ UNCHANGED <<pend, nrounds, routes>>
+  /\ UNCHANGED <<pend, nrounds>>
 
 \* What handle_stun_request does with a request it accepts.
 Accept(src, uc, rt) ==
-  IF sock = "tcp" THEN AcceptTcp(src) ELSE
+  IF IsTcp THEN AcceptTcp(src, rt) ELSE
   LET isNew   == src \notin rc
       rc1     == rc \cup {src}
       useIt   == uc /\ role = "controlled"
@@ -160,13 +167,18 @@ Request(q) ==
   /\ state # "Failed"
   /\ LET ul == UserLocal(q.user)
          \* the demux records the route a USERNAME names before anything is verified
-         rt1 == IF sock = "mux" /\ ul # "nouser" THEN [routes EXCEPT ![q.src] = ul] ELSE routes
-         delivered == sock # "mux" \/ ul = "us" \/ (ul = "nouser" /\ routes[q.src] = "us")
+         rt1 == IF sock = "mux" /\ ul # "nouser" THEN [routes EXCEPT ![q.src] = ul]
+                ELSE IF sock = "tcpmux" /\ routes[q.src] # "us" /\ ul = "us" THEN [routes EXCEPT ![q.src] = "us"]
+                ELSE routes
+         delivered == CASE sock = "mux" -> ul = "us" \/ (ul = "nouser" /\ routes[q.src] = "us")
+                        [] sock = "tcpmux" -> routes[q.src] = "us" \/ ul = "us"     \* later frame, or an attaching first frame
+                        [] OTHER -> TRUE
      IN /\ (IF delivered /\ (Authentic(q) \/ "NoRequestAuth" \in Deviations)
              THEN Accept(q.src, q.uc, rt1)
              ELSE /\ UNCHANGED <<rc, sel, state, nom, pend, nrounds>>
                   /\ routes' = rt1)
-        /\ last' = [kind |-> "request", auth |-> Authentic(q), known |-> (q.src \in rc), delivered |-> delivered]
+        /\ last' = [kind |-> "request", auth |-> Authentic(q), known |-> (q.src \in rc), delivered |-> delivered,
+               first |-> (sock = "tcpmux" /\ routes[q.src] # "us")]
   /\ UNCHANGED <<started, phost, cfgv>>
   /\ Log([op |-> "request", src |-> q.src, user |-> q.user, mi |-> q.mi, uc |-> q.uc, fp |-> q.fp])
 
@@ -214,7 +226,8 @@ Response(tx, class, src) ==
       ELSE IF "AnyResponse" \in Deviations /\ pend # {}
            THEN \E p \in pend : Matched(p, class)          \* a response consumed although it matches nothing
            ELSE UNCHANGED <<sel, state, nom, pend>>)
-  /\ last' = [kind |-> "response", matched |-> (tx \in pend), delivered |-> (routes[src] = "us")]
+  /\ last' = [kind |-> "response", matched |-> (tx \in pend), delivered |-> (routes[src] = "us"),
+               first |-> (sock = "tcpmux" /\ routes[src] # "us")]
   /\ UNCHANGED <<rc, nrounds, started, phost, routes, cfgv>>
   /\ Log([op |-> "response",
           tx |-> IF tx \in pend THEN [dst |-> tx.dst, uc |-> tx.uc, known |-> TRUE]
